@@ -95,17 +95,43 @@ def check(case, rec):
     rec.label('dest=' + prog['dest'], 'index=%s' % prog['index'], 'sessions=%d' % len(prog['sessions']))
     model = res['model']
     data = res['data']
-    ok, tf = rec.guard('read', lambda: TdmsFile.read(io.BytesIO(data)))
+    tf = verify(rec, model, data, '', True)
+    if tf is not None and prog.get('rewrite'):
+        # second phase: the TdmsGroup / TdmsChannel objects of the file just read are themselves written to a new file
+        from nptdms import TdmsWriter, RootObject
+        rec.label('rewrite_of_read_objects')
+        out = io.BytesIO()
+
+        def rewrite():
+            with TdmsWriter(out) as w:
+                objs = [RootObject(tf.properties)]
+                for g in tf.groups():
+                    objs.append(g)
+                    objs.extend(g.channels())
+                if prog['rewrite'] == 'one_segment':
+                    w.write_segment(objs)
+                else:
+                    for o in objs:
+                        w.write_segment([o])
+        ok, _r = rec.guard('rewrite', rewrite)
+        if ok:
+            verify(rec, model, out.getvalue(), 'rewrite:', False)
+
+
+def verify(rec, model, data, tag, check_codes):
+    from nptdms import TdmsFile
+    ok, tf = rec.guard(tag + 'read', lambda: TdmsFile.read(io.BytesIO(data)))
     if not ok:
-        return
-    ok, tfr = rec.guard('read', lambda: TdmsFile.read(io.BytesIO(data), raw_timestamps=True))
+        return None
+    ok, tfr = rec.guard(tag + 'read', lambda: TdmsFile.read(io.BytesIO(data), raw_timestamps=True))
     if not ok:
-        return
-    try:
-        segs = parse_file(data)
-    except StructuralError as e:
-        segs = None
-        rec.stat('unparsable_by_strict_parser')
+        return None
+    segs = None
+    if check_codes:
+        try:
+            segs = parse_file(data)
+        except StructuralError as e:
+            rec.stat('unparsable_by_strict_parser')
     codes = {}
     if segs is not None:
         for s in segs:
@@ -121,14 +147,14 @@ def check(case, rec):
         try:
             ch = tf[g][c]
         except KeyError:
-            rec.violation('names', 'channel (%r, %r) not found after reading; groups=%r' % (g, c, [x.name for x in tf.groups()]))
+            rec.violation(tag + 'names', 'channel (%r, %r) not found after reading; groups=%r' % (g, c, [x.name for x in tf.groups()]))
             continue
         if ch.name != c or ch.group_name != g:
-            rec.violation('names', 'channel (%r, %r) reports name=%r group_name=%r' % (g, c, ch.name, ch.group_name))
+            rec.violation(tag + 'names', 'channel (%r, %r) reports name=%r group_name=%r' % (g, c, ch.name, ch.group_name))
         t = writes[0][0]
         if any(w[0] != t for w in writes):
             continue    # generator keeps one type per channel; defensive
-        ok, got = rec.guard('read_channel', lambda: ch[:])
+        ok, got = rec.guard(tag + 'read_channel', lambda: ch[:])
         if not ok:
             continue
         if t == 'str':
@@ -152,7 +178,7 @@ def check(case, rec):
             exp = b''.join(w[1] for w in writes)
             msgs = compare_values(t, exp, got, 'channel %s' % p)
         for m in msgs:
-            rec.violation('channel_data:' + ('list' if t == 'intlist' else t), m)
+            rec.violation(tag + 'channel_data:' + ('list' if t == 'intlist' else t), m)
     # ---- properties
     for p, pd in model.props.items():
         comps = split_path(p)
@@ -164,15 +190,18 @@ def check(case, rec):
             else:
                 gd, gr = tf[comps[0]][comps[1]].properties, tfr[comps[0]][comps[1]].properties
         except KeyError:
-            rec.violation('names', 'object %s not found after reading' % p)
+            rec.violation(tag + 'names', 'object %s not found after reading' % p)
             continue
         if sorted(gd.keys()) != sorted(pd.keys()):
-            rec.violation('property_names', '%s: property names %r, expected %r' % (p, list(gd.keys()), list(pd.keys())))
+            rec.violation(tag + 'property_names', '%s: property names %r, expected %r' % (p, list(gd.keys()), list(pd.keys())))
             continue
         for name, (t, exp) in pd.items():
             rec.label('prop_type=' + t)
+            if t == 'ts' and exp[0] == 'raw' and not check_codes:
+                # the objects were read without raw_timestamps: sub-microsecond fractions cannot survive the second write
+                continue
             if not prop_value_ok(t, exp, gd[name], gr[name]):
-                rec.violation('property_value:' + t, '%s property %r: read %r / raw %r, written %r as %s' % (
+                rec.violation(tag + 'property_value:' + t, '%s property %r: read %r / raw %r, written %r as %s' % (
                     p, name, gd[name], gr[name], exp, t))
             if segs is not None:
                 code = codes.get((p, name))
@@ -182,7 +211,8 @@ def check(case, rec):
     # groups used exist
     for (g, c) in model.order:
         if g not in tf:
-            rec.violation('names', 'group %r missing' % g)
+            rec.violation(tag + 'names', 'group %r missing' % g)
+    return tf
 
 
 def post_check(stats, labels):
